@@ -175,21 +175,27 @@ def run_cases(cases, tag, nproc=12, **kw):
 
 
 def judge(cases, results, verd, what):
-    """Reports every behaviour the real code does not follow (after running it a second time: a difference must
-    recur at the same step).  Returns the list of (case, result) that conform."""
-    suspicious = []
+    """Reports the behaviours the real code does not follow.  A behaviour that differs is run a second time and
+    reported only if the difference recurs at the same step (at most three behaviours per failure signature are
+    run again: a tree that differs everywhere must not take hours).  Returns the (case, result) that conform."""
+    groups = {}
     good = []
     for c, res in zip(cases, results):
         if "r" not in res:
-            suspicious.append((c, res, None))
+            sig = (vlib.outcome_of(res).split(":")[0], "+".join(sorted(s["op"]["k"] for s in c["steps"] if s["ctl"] == "start")))
+            groups.setdefault(sig, []).append((c, res, None))
             continue
         d = first_difference(c, res)
         if d is None:
             good.append((c, res))
         else:
-            suspicious.append((c, res, d))
+            sig = (d[1], inflight_ops(c, d[0] if isinstance(d[0], int) else len(c["steps"])))
+            groups.setdefault(sig, []).append((c, res, d))
+    suspicious = [m for sig in sorted(groups) for m in groups[sig][:3]]
     if suspicious:
-        again = run_cases([c for c, _, _ in suspicious], "again", nproc=1, block_ms=400, limit_ms=20000)
+        vlib.log("C12/bufconc: %d behaviours differ (%d signatures); running %d of them again" %
+                 (sum(len(g) for g in groups.values()), len(groups), len(suspicious)))
+        again = run_cases([c for c, _, _ in suspicious], "again", nproc=4, block_ms=400, limit_ms=20000)
         for (c, res, d), res2 in zip(suspicious, again):
             if "r" not in res2:
                 oc = vlib.outcome_of(res2).split(":")[0]
